@@ -1,5 +1,6 @@
 import Goyang.Lemmas.LoadOrderDump
 import Goyang.Lemmas.LoadOrderLoad
+import Goyang.Lemmas.LoadOrderPlug
 import Goyang.Model.Pipeline
 import Goyang.Model.TypesLite
 /-
@@ -95,5 +96,124 @@ theorem process_load_order_irrelevant_resolver {loads₁ loads₂ : List Stmt} (
     dumpOutcome (processAll (Registry.loadAll loads₁).1 opts (plugLite (Registry.loadAll loads₁).1)) =
       dumpOutcome (processAll (Registry.loadAll loads₂).1 opts (plugLite (Registry.loadAll loads₂).1)) :=
   process_load_order_irrelevant_partial hperm hn hd opts plugLite (fun σ _ => plugLite_rel σ _ _)
+
+/-- The layers of the real pipeline (`plugFull`: `Type.resolve` / `resolveTypedefs` of the C09
+layer, `resolveIdentities` of the C11 layer with the insertion-order oracle — every map walk of
+the repaired code sorts first) respect the renaming. -/
+theorem plugFull_respects_renaming {σ : Nat → Nat} {r₁ r₂ : Registry} (h : RegRel σ r₁ r₂) :
+    PlugRel σ r₁ r₂ (plugFull r₁) (plugFull r₂) :=
+  plugFull_rel h
+
+/-- **Load order does not matter** — the whole pipeline after generic parsing (`Modules.add` of
+every load, then `Modules.Process` with type, typedef and identity resolution plugged in).  Two
+load orders of pairwise different modules give the same canonical dump: the same error set
+(file, line, column, class), or — when there are no errors — the same trees, node by node, with
+the same kinds, types, defaults, config / mandatory flags, list attributes, namespaces and
+instantiating modules. -/
+theorem process_load_order_irrelevant {loads₁ loads₂ : List Stmt} (hperm : loads₁.Perm loads₂)
+    (hn : NamesOk loads₁) (hd : Distinct loads₁) (opts : Opts) :
+    dumpOutcome (processAll (Registry.loadAll loads₁).1 opts (plugFull (Registry.loadAll loads₁).1)) =
+      dumpOutcome (processAll (Registry.loadAll loads₂).1 opts (plugFull (Registry.loadAll loads₂).1)) :=
+  process_load_order_irrelevant_partial hperm hn hd opts plugFull (fun _ h => plugFull_rel h)
+
+/-- The statements of all texts, in load order. -/
+def stmtsOf (files : List SrcFile) : List Stmt := files.flatMap (·.stmts)
+
+/-- **The open core statement `Props.C05.ProcessLoadOrderIrrelevant`, with the hypotheses it
+needs**: for texts whose modules are pairwise different (and named by identifiers), the result of
+`processFiles` (`Modules.Parse` of every text in order, atomically, then `Modules.Process`) does
+not depend on the order of the texts — also not whether the set is inside the model at all. -/
+theorem process_files_load_order_irrelevant (opts : Opts) {files₁ files₂ : List SrcFile} (hperm : files₁.Perm files₂)
+    (hn : NamesOk (stmtsOf files₁)) (hd : Distinct (stmtsOf files₁)) :
+    (processFiles opts files₁).toOption.map dumpOutcome = (processFiles opts files₂).toOption.map dumpOutcome := by
+  have hps : (stmtsOf files₁).Perm (stmtsOf files₂) := List.Perm.flatMap_right _ hperm
+  have hn₂ : NamesOk (stmtsOf files₂) := fun s hs => hn s (hps.mem_iff.mpr hs)
+  have hd₂ : Distinct (stmtsOf files₂) := (hps.map header).nodup_iff.mp hd
+  unfold processFiles
+  cases h1 : files₁.findSome? fun f => outsideL "" f.stmts with
+  | some why =>
+    cases h2 : files₂.findSome? fun f => outsideL "" f.stmts with
+    | some why' => rfl
+    | none =>
+      exfalso
+      rw [List.findSome?_eq_none_iff] at h2
+      obtain ⟨f, hf, hw⟩ := List.exists_of_findSome?_eq_some h1
+      rw [h2 f (hperm.mem_iff.mp hf)] at hw
+      cases hw
+  | none =>
+    cases h2 : files₂.findSome? fun f => outsideL "" f.stmts with
+    | some why' =>
+      exfalso
+      rw [List.findSome?_eq_none_iff] at h1
+      obtain ⟨f, hf, hw⟩ := List.exists_of_findSome?_eq_some h2
+      rw [h1 f (hperm.mem_iff.mpr hf)] at hw
+      cases hw
+    | none =>
+      simp only [Except.toOption, Option.map_some, Option.some.injEq]
+      rw [loadFiles_eq_loadAll files₁ hn hd, loadFiles_eq_loadAll files₂ hn₂ hd₂]
+      exact process_load_order_irrelevant hps hn hd opts
+
+/-! ### the hypotheses are satisfiable, and they are needed
+
+`exA` includes its submodule `exAs` (which uses a typedef), `exB` imports `exA`, augments its
+container and deviates its leaf: linking, submodule merging, type resolution, the augment loop
+and deviations all run.  Three load orders. -/
+
+private def st (file kw arg : String) (l : Nat) (subs : List Stmt := []) : Stmt := .mk kw true arg file l 1 subs
+
+def exA : Stmt :=
+  st "a.yang" "module" "a" 1 [st "a.yang" "namespace" "urn:a" 2, st "a.yang" "prefix" "a" 3,
+    st "a.yang" "include" "as" 4,
+    st "a.yang" "container" "c" 5 [st "a.yang" "leaf" "x" 6 [st "a.yang" "type" "string" 7]]]
+def exAs : Stmt :=
+  st "as.yang" "submodule" "as" 1 [st "as.yang" "belongs-to" "a" 2 [st "as.yang" "prefix" "a" 3],
+    st "as.yang" "leaf" "z" 4 [st "as.yang" "type" "t" 5],
+    st "as.yang" "typedef" "t" 6 [st "as.yang" "type" "int8" 7]]
+def exB : Stmt :=
+  st "b.yang" "module" "b" 1 [st "b.yang" "namespace" "urn:b" 2, st "b.yang" "prefix" "b" 3,
+    st "b.yang" "import" "a" 4 [st "b.yang" "prefix" "a" 5],
+    st "b.yang" "augment" "/a:c" 6 [st "b.yang" "leaf" "y" 7 [st "b.yang" "type" "int8" 8]],
+    st "b.yang" "deviation" "/a:c/a:x" 9 [st "b.yang" "deviate" "add" 10 [st "b.yang" "default" "d" 11]]]
+
+example : NamesOk [exA, exAs, exB] := by decide
+example : Distinct [exA, exAs, exB] := by decide
+example : [exA, exAs, exB].Perm [exB, exAs, exA] :=
+  (List.Perm.swap exAs exA [exB]).symm.trans ((List.Perm.cons exAs (List.Perm.swap exB exA [])).trans
+    ((List.Perm.swap exB exAs [exA]).symm.trans (List.Perm.refl _))) |>.trans (List.Perm.refl _) |> fun h => by
+      first
+        | exact h
+        | exact (List.reverse_perm [exB, exAs, exA]).symm
+/-- the instance of the theorem for these loads -/
+example (opts : Opts) :
+    dumpOutcome (processAll (Registry.loadAll [exA, exAs, exB]).1 opts (plugFull (Registry.loadAll [exA, exAs, exB]).1)) =
+      dumpOutcome (processAll (Registry.loadAll [exB, exAs, exA]).1 opts (plugFull (Registry.loadAll [exB, exAs, exA]).1)) :=
+  process_load_order_irrelevant (List.reverse_perm [exB, exAs, exA]).symm (by decide) (by decide) opts
+/-- the processed forest is not trivial (placeholder type layer, which the kernel can evaluate):
+three trees — `a`, its submodule, `b` — and the augmented container has two children -/
+example : (processAll (Registry.loadAll [exB, exAs, exA]).1 {} (plugLite (Registry.loadAll [exB, exAs, exA]).1)).errors = [] ∧
+    (processAll (Registry.loadAll [exB, exAs, exA]).1 {} (plugLite (Registry.loadAll [exB, exAs, exA]).1)).forest.trees.length = 3 := by
+  decide +kernel
+
+/-- Two texts for one module name (no revision): the second load is rejected as a duplicate
+(`Props.C13.duplicate_rejected`), so which text is processed depends on the order. -/
+def dupA : Stmt :=
+  st "a1.yang" "module" "a" 1 [st "a1.yang" "namespace" "urn:a" 2, st "a1.yang" "prefix" "a" 3,
+    st "a1.yang" "container" "c" 4]
+def dupA' : Stmt :=
+  st "a2.yang" "module" "a" 1 [st "a2.yang" "namespace" "urn:a" 2, st "a2.yang" "prefix" "a" 3]
+
+/-- **`Distinct` cannot be dropped**: for two different texts of one module the dumps of the two
+load orders differ (here: in length).  The unconditional statement
+`Props.C05.ProcessLoadOrderIrrelevant` is therefore too strong as written: "the same sources"
+must not contain two sources for one (kind, name, revision). -/
+theorem distinct_needed :
+    NamesOk [dupA, dupA'] ∧ [dupA, dupA'].Perm [dupA', dupA] ∧ ¬ Distinct [dupA, dupA'] ∧
+    dumpOutcome (processAll (Registry.loadAll [dupA, dupA']).1 {} (plugLite (Registry.loadAll [dupA, dupA']).1)) ≠
+      dumpOutcome (processAll (Registry.loadAll [dupA', dupA]).1 {} (plugLite (Registry.loadAll [dupA', dupA]).1)) := by
+  refine ⟨by decide, List.Perm.swap _ _ _, by decide, ?_⟩
+  intro h
+  have hl := congrArg String.length h
+  revert hl
+  decide +kernel
 
 end Goyang.Props.C05Order
